@@ -245,6 +245,11 @@ def dropres_rules(facts, rep, reach):
                         if s2["k"] == "assign" and s2["place"]["l"] == l2 and not s2["place"]["p"] and s2["rv"]["k"] == "use" and \
                                 s2["rv"]["op"]["k"] in ("copy", "move") and s2["rv"]["op"]["place"]["l"] in seen and not s2["rv"]["op"]["place"]["p"]:
                             sites.append((l2, b2))
+            # (an alias that receives the value after its discriminant was read -- the Err arm of a desugared `map_err(|_| ..)` drops the
+            # old error there -- holds an examined result)
+            exam = {b2 for l2 in seen for (k2, b2, _n) in _uses_of(f, l2) if k2 in ("discr", "switch")}
+            dom_ = f.dominators()
+            sites = [(l2, b2) for (l2, b2) in sites if l2 == L or not any(e_ in dom_[b2] for e_ in exam)]
             lost = overwritten_results(f, seen, sites) if handled else []     # (a result nobody ever looks at is judged below)
             if lost:
                 l_, bd_, bl_, how_ = lost[0]
